@@ -294,6 +294,71 @@ def h15g_pre(c0, c1, ttl, relativize):
     return c0 in (69, 101) and c1 in (87, 119) and 0 <= ttl < 2**31
 
 
+# ---------------------------------------------------------------- H15f NSEC chain produced by sign_zone
+
+NSEC_POOL = [("a", "A", "10.0.0.1"), ("sub", "NS", "ns.sub"), ("sub", "DS", "1 8 200 0102"), ("glue.sub", "A", "10.0.0.2"), ("deep.glue.sub", "A", "10.0.0.3"),
+             ("x.ent", "TXT", '"t"'), ("*.w", "A", "10.0.0.4"), ("Z", "MX", "10 a"), ("sub", "A", "10.0.0.9")]
+
+
+def h15f(mask: int) -> bool:
+    """sign_zone (NSEC): the chain visits every authoritative name exactly once in canonical order, last -> apex, names beneath delegations skipped, exact type bitmaps (at a cut only NS / DS besides NSEC / RRSIG)."""
+    origin = dns.name.from_text("example.")
+    z = dns.zone.Zone(origin, relativize=False)
+    present = {}
+    with z.writer() as txn:
+        txn.add(origin, dns.rdataset.from_text_list("IN", "SOA", 300, ["ns hostmaster 1 2 3 4 5"], origin=origin, relativize=False))
+        txn.add(origin, dns.rdataset.from_text_list("IN", "NS", 300, ["ns"], origin=origin, relativize=False))
+        present["example."] = ["SOA", "NS"]
+        for i in range(len(NSEC_POOL)):
+            if (mask >> i) % 2 == 1:
+                owner, t, txt = NSEC_POOL[i]
+                name = dns.name.from_text(owner, origin)
+                txn.add(name, dns.rdataset.from_text_list("IN", t, 300, [txt], origin=origin, relativize=False))
+                present.setdefault(name.to_text(), []).append(t)
+    signed = []
+    with z.writer() as txn:
+        dns.dnssec.sign_zone(z, txn, add_dnskey=False, rrset_signer=lambda t, rrset: signed.append((rrset.name.to_text(), int(rrset.rdtype))))
+    hit("signed")
+    # reference chain
+    names = sorted([dns.name.from_text(n) for n in present])
+    cuts = [n for n in names if "NS" in present[n.to_text()] and n != origin]
+    cuts = [c for c in cuts if not any([c != d and c.is_subdomain(d) for d in cuts])]
+    auth = [n for n in names if not any([n != c and n.is_subdomain(c) for c in cuts])]
+    for i, n in enumerate(auth):
+        rds = z.get_rdataset(n, dns.rdatatype.NSEC)
+        if rds is None or len(rds) != 1:
+            return False
+        nxt = auth[(i + 1) % len(auth)]
+        if rds[0].next != nxt:
+            return False
+        types = set(present[n.to_text()])
+        if n in cuts:
+            types = types & {"NS", "DS"}
+        want = sorted([int(dns.rdatatype.from_text(t)) for t in types] + [int(dns.rdatatype.NSEC), int(dns.rdatatype.RRSIG)])
+        got = []
+        for window, bitmap in rds[0].windows:
+            for j, byte in enumerate(bitmap):
+                for k in range(8):
+                    if byte & (0x80 >> k):
+                        got.append(window * 256 + j * 8 + k)
+        if got != want:
+            return False
+    # no NSEC anywhere else
+    for n in names:
+        if n not in auth and z.get_rdataset(n, dns.rdatatype.NSEC) is not None:
+            return False
+    return True
+
+
+def h15f_pre(mask):
+    lo, hi = S("masks")
+    if not (lo <= mask < hi):
+        return False
+    if S("no_cut_address") and (mask >> 8) % 2 == 1:
+        return False
+    return True
+
+
 HARNESSES = [
     Harness("H15n", h15n, h15n_pre, lambda tier: [{"_timeout": 600}], kind="universal",
             encodes=["dns.name.Name.to_digestable", "dns.name.Name.to_wire", "dns.name.Name.canonicalize"],
@@ -317,6 +382,11 @@ HARNESSES = [
             encodes=["dns.dnssec.nsec3_hash", "dns.dnssec.make_ds", "dns.dnssec.key_id"],
             bound="owner first label two symbolic octets, NSEC3 iterations 0..3, salt <= 2 symbolic octets, DNSKEY flags symbolic", stubs=["E9", "E1"],
             outside="the hash functions themselves (idealised)"),
+    Harness("H15f", h15f, h15f_pre, lambda tier: [{"masks": (lo, lo + 64), "no_cut_address": False, "_timeout": 900, "_path_timeout": 120} for lo in range(0, 512, 64)],
+            kind="finite selection of zone members, exhaustive",
+            encodes=["dns.dnssec.sign_zone", "dns.dnssec._sign_zone_nsec", "dns.rdtypes.util.Bitmap.from_rdtypes"],
+            bound="absolute zone assembled from 9 optional members (ordinary name, delegation NS / DS, address owned by the cut name, glue and deeper glue, a name under an empty non-terminal, wildcard, upper-case owner): all 512 subsets; RRset signer replaced by a recorder",
+            stubs=["E6"], outside="relativized zones; NSEC3"),
     Harness("H15g", h15g, h15g_pre, lambda tier: [{"_timeout": 900, "_path_timeout": 120}], kind="finite selection of case, universal TTL",
             encodes=["dns.zone.Zone._compute_digest", "dns.name.Name.to_digestable", "dns.rdata.Rdata.to_digestable"],
             bound="4-rrset zone, upper/lower case of the origin's and an owner's first letter, relativized or absolute, TTL symbolic", stubs=["E9", "E6", "E1"],
